@@ -18,17 +18,17 @@ CLAIMS = {
    text='gate functions (jls_core_signal_validate[_typed]) proved to return 0 only for defined ids of the right type and error codes otherwise; every unit of every other property additionally discharges CBMC\'s memory-safety, overflow, division and termination (loop variant) obligations for the function it enforces',
    note='per-function safety, not a theorem over all call sequences; functions without a unit are not covered (listed in evidence.not_covered); whole-session leak freedom not proved'),
  'C13': dict(cat='proof', ref='DESIGN.md §6 C13',
-   text='buffer codec proved: jls_buf_wr_u8/u16/u32/i64/f32/zero append exactly the little-endian bytes and keep earlier bytes; jls_buf_rd_u8/u16/u32/skip decode them (inverse) and fail with EMPTY exactly when too few bytes remain; jls_buf_realloc grows, preserves content and cursor offsets; undefined-signal gate proved',
-   note='definition payload layout (writer.c) and parse (core.c), strings (jls_buf_wr_str/rd_str) and user-data tag packing are covered only if their units are listed in the evidence; file composition assumed'),
+   text='buffer codec proved: jls_buf_wr_u8/u16/u32/i64/f32/zero append exactly the little-endian bytes and keep earlier bytes; jls_buf_rd_u8/u16/u32/skip decode them (inverse) and fail with EMPTY exactly when too few bytes remain; jls_buf_realloc grows, preserves content and cursor offsets; jls_buf_wr_bin / jls_buf_wr_str append the caller bytes and the {0,0x1f} terminator (absent string = empty); the user-data iteration hands the callback the buffer of the chunk just read with tag/storage/size unpacked from chunk_meta (bounded chain length); undefined-signal gate proved',
+   note='definition payload layout (writer.c), its parse (core.c) and jls_buf_rd_str / jls_buf_string_save have no unit; memcpy/strlen through the witness models of stubs/mem_model.c; file composition assumed'),
  'C14': dict(cat='proof', ref='DESIGN.md §6 C14',
    text='the in-place header rewrite is proved to change only item_next (bytes 0..7) and the header CRC (bytes 28..31) of exactly one 32-byte header of a chunk already in the file, under the heads-sync invariant, which it re-establishes; raw writes proved append-only otherwise; witness byte outside the written range unchanged',
-   note='heads-sync is an instance invariant over a witness header window (skolem); public writer functions are covered only where their units are listed in the evidence; A-FS'),
+   note='heads-sync is an instance invariant over a witness header window (skolem); the head-table rewrite (jls_track_update / jls_track_wr_head) is an attic unit that exceeds memory, and the public jls_wr_* functions have no unit: for them the write discipline is argued from the primitives they call; A-FS'),
  'C16': dict(cat='proof', ref='DESIGN.md §6 C16',
    text='jls_core_signal_def_align proved over the full accepted domain (all 15 data types, all four parameters up to the validated maximum 2^24): minimums, sdf multiple of 256/bits, spd multiple of sdf, eps multiple of spd/sdf and of sdf2; defaults table; round_up_to_multiple; arithmetic lemmas proved by cvc5 int-blasting',
-   note='idempotence (normalising normalised parameters changes nothing) is a separate thorough-tier unit (U-def-idem); loop termination by decreases clause'),
+   note='idempotence (normalising normalised parameters changes nothing) is NOT decided: the unit U-def-idem ran 30 minutes without a verdict (attic); loop termination by decreases clause; annotation/UTC decimation factors proved >= 10 after the fix 9319f2a'),
  'C18': dict(cat='proof', ref='DESIGN.md §6 C18',
    text='the SSE4.2 jls_crc32c (three loops) is proved equal to the bit-serial CRC-32C fold for every length <= 2^24 and all 8 alignments by loop contracts in lock step with the reference; jls_crc32c_hdr proved equal to the reference over 28 bytes',
-   note='A-ISA: semantics of the crc32 instruction given as the bit-serial step; table-driven build (crc32c_sw.c) covered only by the units listed in evidence; ARM NEON file not compiled on this target'),
+   note='A-ISA: semantics of the crc32 instruction given as the bit-serial step; table-driven build: all 8x256 table entries, the byte step over its full domain and the head/tail byte loops are proved, the 8-byte slicing iteration is NOT decided (XOR-heavy miter); ARM NEON file not compiled on this target'),
  'C20': dict(cat='proof', ref='DESIGN.md §6 C20',
    text='jls_statistics_add/combine/compute_f32/compute_f64/var/reset contracts over IEEE-754 doubles: count exact, min/max exact (bound for an arbitrary witness sample + attained), variance accumulator never negative / never decreasing, min<=mean<=max, empty operand is the identity bit for bit, result may overwrite either operand',
    note='magnitudes <= 2^500, counts < 2^52; "equal up to rounding" across groupings is a forward error bound and is NOT decided; jls_statistics_add (1000 s of FP SAT) runs in the thorough tier only'),
@@ -37,7 +37,7 @@ CLAIMS = {
    note='numeric tolerances (mean precision, std ratio, averaged means) are not decided; summary level selection and strides (jls_core_fsr_statistics, fsr_seek) have no unit; u1 conversion runs in the thorough tier only; bounded units are labelled bounded in the evidence and not counted as proof'),
  'C11': dict(cat='proof', ref='DESIGN.md §6 C11, §9',
    text='index mechanics of the annotation writer: for every decimation factor 2..65536 and every reachable fill state of the index levels, jls_wr_ts_anno / jls_wr_ts_close append entries in order, never exceed a level buffer, write a full level as INDEX immediately followed by its SUMMARY (same signal/track/level/timestamp), push its first entry one level up and re-establish the level invariant; recursion of commit() fully unwound (depth <= 16)',
-   note='quick tier: start states with levels 1..3 allocated (upper levels are created by the code under test), all 15 levels in the thorough tier; jls_core_ts_seek (seek side, finding F10 of the plan) has no unit in this round; file composition assumed'),
+   note='quick tier: start states with levels 1..3 allocated (upper levels are created by the code under test), all 15 levels in the thorough tier; jls_core_annotations iteration checked on chains of up to 3 chunks with all callees modelled (seek is asked for exactly timestamp + offset); jls_core_ts_seek itself has no unit (F10 found and fixed through native reproduction); file composition assumed'),
  'C12': dict(cat='proof', ref='DESIGN.md §6 C12, §9',
    text='exact part: interp_i64 binary search proved in bounds for every map size up to 2^24 (loop contract: invariant, variant), selecting the segment that contains the argument or the nearest end segment; UTC index writer (jls_wr_ts_utc) as C11',
    note='anchors reproduced exactly and monotonicity/one-tick accuracy of the double interpolation: anchors in the thorough tier (FP), accuracy not decided; A-TSRANGE: stored ids/timestamps < 2^61 (overflow checks of differences waived outside the witness pair); jls_tmap_add has no unit'),
